@@ -185,68 +185,124 @@ theorem C03_release_needed :
     (call cfg 0 .normal 2 W1 [.ok]).1 = .failed .protocol ∧
     (call cfg 0 .normal 3 W2 [.ok]).1 = .failed .protocol := by decide
 
-/-! ### obligations about facts extracted from the current source (PyroModel/Gen/C03.lean) -/
+/-! ### obligations about facts extracted from the current source (PyroModel/Gen/C03.lean)
 
-/-- The proxy's counter is incremented by one and masked to 16 bits, which is the width of the header
-    field that carries it: `seqMod` of the model. -/
+  The facts are *probes*: the extractor calls the real `_pyroInvoke`, `_pyroBind`, `_RemoteMethod.__call__`,
+  `BatchProxy`, `_StreamResultIterator`, `Daemon._handshake/handleRequest/get_next_stream_item` on small tables of
+  scripted inputs and emits what they did.  The obligations say that this is what the model does on those inputs. -/
+
+/-- model-side names of the exception classes the probes report -/
+def errOfName (s : String) : Option Err :=
+  if s = "ConnectionClosedError" then some .connClosed
+  else if s = "TimeoutError" then some .timeout
+  else if s = "ProtocolError" then some .protocol
+  else none
+
+/-- The header field that carries the sequence number holds exactly the values below `seqMod`; the proxy's
+    counter goes 41 → 42, 255 → 256 (no 8-bit wrap), 65535 → 0, also when the send fails. -/
 theorem C03_gen_seq :
-    Pyro.Gen.C03.seqInc = 1 ∧ Pyro.Gen.C03.seqMask + 1 = seqMod ∧
-    Pyro.Gen.C03.seqFieldFormat = "H" ∧ 256 ^ Pyro.Gen.C03.seqFieldBytes = seqMod := by decide
+    Pyro.Gen.C03.seqFieldMax + 1 = seqMod ∧
+    Pyro.Gen.C03.invokeProbe.lookup "own-reply" = some "ret/kept/seq=42/reads=1" ∧
+    Pyro.Gen.C03.invokeProbe.lookup "no-wrap-255" = some "ret/kept/seq=256/reads=1" ∧
+    Pyro.Gen.C03.invokeProbe.lookup "wrap-65535" = some "ret/kept/seq=0/reads=1" ∧
+    (41 + 1) % seqMod = 42 ∧ (255 + 1) % seqMod = 256 ∧ (65535 + 1) % seqMod = 0 := by decide
 
-/-- Shape of `_pyroInvoke`, `__pyroCheckSequence`, `_pyroRelease`, the handshake and `recv_stub` that
-    `invokeOn` / `connect` follow: connect and increment before the `try`; inside it send, oneway return,
-    receive (RESULT only), sequence check, serializer check, only then the wire-level-response early return
-    (so `_pyroRawWireResponse` proxies get the same checks — the model has no such switch), deserialise — in this order; CommunicationError and
-    KeyboardInterrupt release and re-raise; the check is `!=` against `_pyroSeq` raising ProtocolError;
-    the handshake accepts CONNECTOK/CONNECTFAIL and does not check the sequence number; the type filter
-    of `recv_stub` sits between the header and the payload read. -/
+/-- What the real `_pyroInvoke` does over a scripted connection is what `invokeOn real` does: own reply returned and
+    connection kept; a reply with another sequence number, of another message type (rejected after the header only) or
+    another serializer: protocol error and connection released — also in wire-level response mode; a remote exception
+    is the call's own outcome (connection kept); errors while sending and while receiving, and KeyboardInterrupt,
+    release the connection; a oneway call returns None without reading.  The handshake accepts a CONNECTOK whatever
+    its sequence number, turns a RESULT-typed reply into a protocol error, and leaves no connection behind on any error. -/
 theorem C03_gen_invoke :
-    Pyro.Gen.C03.invokePreTry = ["connect-if-none", "seq-increment"] ∧
-    Pyro.Gen.C03.invokeTryOrder = ["send", "oneway-return-none", "recv", "check-seq", "serializer-check", "raw-return", "loads"] ∧
-    Pyro.Gen.C03.invokeAccepts = ["MSG_RESULT"] ∧
-    Pyro.Gen.C03.invokeCatches = ["CommunicationError", "KeyboardInterrupt"] ∧
-    Pyro.Gen.C03.invokeHandler = ["release", "reraise"] ∧
-    Pyro.Gen.C03.checkSeq = ["NotEq", "seq", "self._pyroSeq", "ProtocolError"] ∧
-    Pyro.Gen.C03.releaseClears = true ∧
-    Pyro.Gen.C03.handshakeAccepts = ["MSG_CONNECTOK", "MSG_CONNECTFAIL"] ∧
-    Pyro.Gen.C03.handshakeChecksSeq = false ∧
-    Pyro.Gen.C03.recvStubOrder = ["recv", "recv", "type-filter", "recv", "add-payload"] := by decide
+    Pyro.Gen.C03.invokeProbe =
+      [("own-reply", "ret/kept/seq=42/reads=1"),
+       ("wrap-65535", "ret/kept/seq=0/reads=1"),
+       ("no-wrap-255", "ret/kept/seq=256/reads=1"),
+       ("reply-seq-plus-1", "ProtocolError/released/seq=42/reads=1"),
+       ("reply-seq-minus-1", "ProtocolError/released/seq=42/reads=1"),
+       ("reply-type-connectok", "ProtocolError/released/seq=42/reads=1"),
+       ("reply-other-serializer", "SerializeError/released/seq=42/reads=1"),
+       ("remote-exception", "ValueError/kept/seq=42/reads=1"),
+       ("send-connection-closed", "ConnectionClosedError/released/seq=42/reads=0"),
+       ("send-timeout", "TimeoutError/released/seq=42/reads=0"),
+       ("recv-connection-closed", "ConnectionClosedError/released/seq=42/reads=1"),
+       ("recv-timeout", "TimeoutError/released/seq=42/reads=1"),
+       ("recv-keyboard-interrupt", "KeyboardInterrupt/released/seq=42/reads=1"),
+       ("oneway", "none/kept/seq=42/reads=0"),
+       ("oneway-send-connection-closed", "ConnectionClosedError/released/seq=42/reads=0"),
+       ("raw-own-reply", "msg/kept/seq=42/reads=1"),
+       ("raw-reply-seq-plus-1", "ProtocolError/released/seq=42/reads=1"),
+       ("raw-reply-other-serializer", "SerializeError/released/seq=42/reads=1"),
+       ("type-filter-consumed", "header-only")] ∧
+    Pyro.Gen.C03.handshakeProbe =
+      [("connectok", "connected/live/seq=7/meta=1"),
+       ("connectok-seq-altered", "connected/live/seq=7/meta=1"),
+       ("reply-type-result", "ProtocolError/none/seq=7/meta=0"),
+       ("connectfail", "CommunicationError/none/seq=7/meta=0"),
+       ("send-reset", "ConnectionClosedError/none/seq=7/meta=0"),
+       ("recv-timeout", "TimeoutError/none/seq=7/meta=0"),
+       ("recv-reset", "ConnectionClosedError/none/seq=7/meta=0")] := by decide
 
-/-- The retry loop runs `max_retries + 1` attempts, retries exactly ConnectionClosedError and
-    TimeoutError (`Err.retryable`), re-raises on the last attempt; these two and ProtocolError are
+/-- The real retry loop makes `max_retries + 1` attempts exactly for the classes the model calls retryable
+    (`Err.retryable`: connection closed, timeout) and one attempt for every other exception; the exception that comes out
+    is the one that went in; it stops at the first attempt that returns.  These and ProtocolError / SerializeError are
     communication errors (so `_pyroInvoke` releases on them); retries are off by default. -/
 theorem C03_gen_retry :
-    Pyro.Gen.C03.retryRange = ["self.__max_retries", "Add", "1"] ∧
-    Pyro.Gen.C03.retryCatches = ["ConnectionClosedError", "TimeoutError"] ∧
-    Pyro.Gen.C03.retryReraise = ["attempt", "GtE", "self.__max_retries", "raise"] ∧
+    Pyro.Gen.C03.retryProbe.length = 15 ∧
+    (∀ r ∈ Pyro.Gen.C03.retryProbe, r.2.2.2 = r.2.1 ∧
+      r.2.2.1 = (match errOfName r.2.1 with | some e => if e.retryable then r.1 + 1 else 1 | none => 1)) ∧
+    Pyro.Gen.C03.retrySuccessProbe.length = 9 ∧
+    (∀ r ∈ Pyro.Gen.C03.retrySuccessProbe,
+      if r.2.1 ≤ r.1 then r.2.2.1 = r.2.1 + 1 ∧ r.2.2.2 = "returned" else r.2.2.1 = r.1 + 1 ∧ r.2.2.2 = "TimeoutError") ∧
     "ConnectionClosedError" ∈ Pyro.Gen.C03.commErrors ∧ "TimeoutError" ∈ Pyro.Gen.C03.commErrors ∧
     "ProtocolError" ∈ Pyro.Gen.C03.commErrors ∧ "SerializeError" ∈ Pyro.Gen.C03.commErrors ∧
     Pyro.Gen.C03.maxRetriesDefault = 0 := by decide
 
-/-- Which calls are retried (`Kind.retried`), which look up metadata first (`Kind.needsMeta`), and the
-    stream iterator's connection check (`Kind.precheck`): only `Proxy.__getattr__` builds a
-    `_RemoteMethod`, and hands it the proxy's own `_pyroMaxRetries` (the model's `retries`; the global
-    `config.MAX_RETRIES` plays no part once the proxy exists); attribute access, metadata, batches and stream
-    iterators call `_pyroInvoke` directly; `BatchProxy.__call__` forgets its recorded calls after every
-    submit, oneway or not (so a batch is one request carrying only its own calls — `Kind.batch`). -/
+/-- The number of `_pyroInvoke` attempts each way of using a real proxy makes (its `_pyroMaxRetries` being 2) is the
+    model's `attempts 2 kind`: only method calls go through the retry loop; the proxy's own setting governs, whatever
+    the global one is (`attempts 0`, `attempts 1`); a stream fetch without a connection is refused without any attempt
+    (`Kind.precheck`); attribute access on a proxy without metadata looks the metadata up once, batch recording never
+    (`Kind.needsMeta`); a re-used BatchProxy submits only the calls recorded since its last submit, oneway or not. -/
 theorem C03_gen_paths :
-    Pyro.Gen.C03.directInvokers = ["Proxy.__getattr__", "Proxy.__setattr__", "Proxy._pyroGetMetadata",
-      "Proxy._pyroInvokeBatch", "_StreamResultIterator.__next__", "_StreamResultIterator.close"] ∧
-    Pyro.Gen.C03.remoteMethodBuilders = ["Proxy.__getattr__"] ∧
-    Pyro.Gen.C03.remoteMethodArgs = ["self._pyroInvoke", "name", "self._pyroMaxRetries"] ∧
-    Pyro.Gen.C03.batchCallShape = ["call:_pyroClaimOwnership", "submit", "clear-calls", "if:Return"] ∧
-    Pyro.Gen.C03.metaLookup = ["__getattr__", "__setattr__"] ∧
-    Pyro.Gen.C03.streamPrecheck = true := by decide
+    Pyro.Gen.C03.pathProbe =
+      [("method", attempts 2 .normal),
+       ("oneway-method", attempts 2 .oneway),
+       ("attribute-read", attempts 2 .getattr),
+       ("attribute-write", attempts 2 .setattr),
+       ("batch", attempts 2 .batch),
+       ("batch-oneway", attempts 2 .batchOneway),
+       ("stream-fetch", attempts 2 .fetch),
+       ("stream-fetch-no-connection:ConnectionClosedError", 0),
+       ("method-own-0-global-2", attempts 0 .normal),
+       ("method-own-1-global-0", attempts 1 .normal),
+       ("metadata-lookups-first-method-access", 1),
+       ("metadata-lookups-later", 0),
+       ("metadata-lookups-first-attribute-write", 1),
+       ("metadata-lookups-batch-recording", 0),
+       ("batch-reuse-submit-1-size", 1),
+       ("batch-reuse-submit-2-size", 1),
+       ("batch-reuse-submit-3-size", 2),
+       ("batch-reuse-submit-4-size", 1)] ∧
+    Kind.precheck .fetch = true ∧ Kind.needsMeta .normal = true ∧ Kind.needsMeta .setattr = true ∧
+    Kind.needsMeta .batch = false := by decide
 
-/-- Every reply the daemon builds carries the request's sequence number, a oneway request is answered
-    with nothing, and a stream that a fetch re-attaches to a new connection is no longer lingering (linger
-    timestamp 0), so that a `fetch` after a recovery is an ordinary call answered with the stream's next item. -/
+/-- Every reply of the real daemon — handshake answer (accepted or refused), result, error reply, batch result —
+    carries the sequence number of the request it answers; oneway requests (also failing ones, also batches) are
+    answered with nothing; a lingering stream that a fetch re-attaches to the fetching connection is no longer
+    lingering, so that a `fetch` after a recovery is an ordinary call answered with the stream's next item. -/
 theorem C03_gen_server :
-    Pyro.Gen.C03.replySeqArgs = ["handleRequest:request_seq", "_sendExceptionResponse:seq", "_handshake:msg_seq"] ∧
-    (∀ x ∈ Pyro.Gen.C03.requestSeqSource, x = "msg.seq") ∧ Pyro.Gen.C03.requestSeqSource ≠ [] ∧
-    (∀ x ∈ Pyro.Gen.C03.excReplySeqArgs, x = "request_seq") ∧
-    Pyro.Gen.C03.onewayNoReply = true ∧
-    Pyro.Gen.C03.streamReattach = ["current_context.client", "timestamp", "0", "stream"] := by decide
+    Pyro.Gen.C03.serverProbe =
+      [("handshake-4321", "connectok/seq=4321"),
+       ("handshake-refused-4321", "connectfail/seq=4321"),
+       ("call-777", "result/seq=777"),
+       ("call-65535", "result/seq=65535"),
+       ("call-raises-777", "result+exception/seq=777"),
+       ("unknown-object-777", "result+exception/seq=777"),
+       ("oneway-777", "no-reply"),
+       ("oneway-raises-777", "no-reply"),
+       ("batch-777", "result+batch/seq=777"),
+       ("batch-oneway-777", "no-reply"),
+       ("reattach", "item=10/client=fetching-connection/linger=0")] := by decide
 
 /-! ### non-vacuity: concrete histories meeting the hypotheses -/
 
